@@ -95,8 +95,29 @@ enum Cmd {
     Quit,
 }
 
+/// Thread-local guard installed at thread start (before the thread touches the
+/// rounding mode): its destructor runs while the thread exits and reports which
+/// mode and which rounding the exiting thread still sees.
+struct ExitProbe {
+    tx: Sender<String>,
+}
+
+impl Drop for ExitProbe {
+    fn drop(&mut self) {
+        let m = catch(|| mode_index(RoundingMode::default()));
+        let r = vcore::common::op(|| Decimal::new_raw(25, 1).round(0));
+        let f = catch(|| format!("{:.0}", Decimal::new_raw(-35, 1)));
+        let _ = self.tx.send(format!("exit mode {m:?} round {r} fmt {f:?}"));
+    }
+}
+
+thread_local! {
+    static PROBE: std::cell::RefCell<Option<ExitProbe>> = const { std::cell::RefCell::new(None) };
+}
+
 fn worker(rx: Receiver<Cmd>, tx: Sender<String>) {
     engine::install_silent_panic_hook();
+    PROBE.with(|p| *p.borrow_mut() = Some(ExitProbe { tx: tx.clone() }));
     while let Ok(Cmd::Run(op)) = rx.recv() {
         let out = match op {
             Op::Set(m) => {
@@ -159,9 +180,12 @@ pub fn exec_child() {
         out.push_str(&got.replace('\n', " "));
         out.push('\n');
     }
-    for (_, (tx, _, h)) in chans {
+    for (t, (tx, rx, h)) in chans {
         let _ = tx.send(Cmd::Quit);
         let _ = h.join();
+        // the exit probe's report (sent from a thread-local destructor)
+        let line = rx.try_recv().unwrap_or_else(|_| "exit <no report>".to_string());
+        out.push_str(&format!("thread {t} {line}\n"));
     }
     print!("{out}");
 }
@@ -210,7 +234,7 @@ impl Prop for C19 {
         "C19"
     }
     fn rule(&self) -> String {
-        "Generated schedules: up to 4 logical threads and a global sequence of up to 40 steps (thread, op) with op in {set_default(mode), default(), round, checked_round, div_rounded, mul_rounded, quantize, * with p+q > 18, /, checked_div, Display with precision, and operations that panic (division by zero, unrepresentable result) after which the thread must keep working}; threads are real OS threads started lazily at their first step (so they start after others changed their mode) and driven in lock-step by the harness; every schedule is executed in a fresh child process (vcheck c19-exec), so no process-wide state survives from one schedule to the next. \
+        "Generated schedules: up to 4 logical threads and a global sequence of up to 40 steps (thread, op) with op in {set_default(mode), default(), round, checked_round, div_rounded, mul_rounded, quantize, * with p+q > 18, /, checked_div, Display with precision, and operations that panic (division by zero, unrepresentable result) after which the thread must keep working}; in addition every thread carries a thread-local guard installed at thread start whose destructor reports default() / round / Display as seen while the thread exits; threads are real OS threads started lazily at their first step (so they start after others changed their mode) and driven in lock-step by the harness; every schedule is executed in a fresh child process (vcheck c19-exec), so no process-wide state survives from one schedule to the next. \
          Operands are exact ties / near ties so the 8 modes give different answers. Oracle: model map thread -> mode (RoundHalfEven at thread start); every result must equal the exact result under the issuing thread's model mode; default() must return it. \
          Non-trivial: a set_default on one thread is followed by a rounding step on another thread whose model mode differs. Distinct: hash of the schedule."
             .into()
@@ -235,7 +259,7 @@ impl Prop for C19 {
             .boxed()
     }
     fn mandatory_labels(&self, _tier: Tier) -> Vec<&'static str> {
-        vec!["cross-thread", "late-start", "get-after-set", "op:round", "op:div_rounded", "op:mul_rounded", "op:mul", "op:div", "op:fmt", "op:quantize", "op:checked_div", "op:checked_round", "op:panicking", "threads=1", "threads>=3", "mode-sensitive"]
+        vec!["cross-thread", "late-start", "get-after-set", "op:round", "op:div_rounded", "op:mul_rounded", "op:mul", "op:div", "op:fmt", "op:quantize", "op:checked_div", "op:checked_round", "op:panicking", "exit-probe", "exit-probe:custom-mode", "threads=1", "threads>=3", "mode-sensitive"]
     }
     fn builtin_corpus(&self) -> Vec<Case> {
         let s = |t: u8, op: Op| Step { thread: t, op };
@@ -413,6 +437,30 @@ impl Prop for C19 {
                 };
                 ctx.fail(sig, format!("step {idx} of {:?}: thread {t} (model mode {}) {:?}: expected {want}, observed {got}", case.steps, md.name(), st.op));
                 break;
+            }
+        }
+        // what each thread saw while it was exiting (thread-local destructor)
+        if ctx.failures.is_empty() && results.len() >= case.steps.len() {
+            for line in &results[case.steps.len()..] {
+                // "thread <t> exit mode Ok(<m>) round Value(c @s) fmt Ok(\"..\")"
+                let f: Vec<&str> = line.split(' ').collect();
+                let t: u8 = f.get(1).and_then(|v| v.parse().ok()).unwrap_or(255);
+                let md = match model.get(&t) {
+                    Some(m) => *m,
+                    None => continue,
+                };
+                ctx.sub();
+                ctx.label("exit-probe");
+                let (e, _) = exp_round(Q { c: 25, s: 1 }, 0, md);
+                let spec = Spec { fill: ' ', align: Align::Default, plus: false, zero: false, width: None, precision: Some(0) };
+                let want = format!("thread {t} exit mode Ok({}) round {} fmt Ok({:?})", md.index(), match &e { Exp::Value { num, .. } => format!("Value({num} @0)"), o => format!("{o}") }, ref_format(-35, 1, md, &spec));
+                ctx.note(|| format!("at exit of thread {t} (model mode {}): expected [{want}], observed [{line}]", md.name()));
+                if md != Mode::HalfEven {
+                    ctx.label("exit-probe:custom-mode");
+                }
+                if *line != want {
+                    ctx.fail("C19/mode-lost-at-thread-exit", format!("schedule {:?}: while exiting, thread {t} (model mode {}) reported [{line}], expected [{want}]", case.steps, md.name()));
+                }
             }
         }
         match model.len() {
